@@ -33,7 +33,7 @@ pub enum Val {
     Builtin(&'static str),
     Printer { port: usize, mutex: usize, term: Option<char> },
     /// mutable table shared by reference (every operation on it is a scheduling point)
-    Table(Arc<StdMutex<Vec<(Val, Val)>>>),
+    Table(Arc<TableCell>),
     /// mutable vector shared by reference (every access is a scheduling point)
     Vector(Arc<StdMutex<Vec<Val>>>),
     /// quoted symbol
@@ -43,6 +43,18 @@ pub enum Val {
     /// (ice-9 atomic) box
     Box(Arc<StdMutex<Val>>),
 }
+
+#[derive(Debug, Default)]
+pub struct TableCell {
+    entries: StdMutex<Vec<(Val, Val)>>,
+    /// a resize is in progress: the new, empty bucket vector is installed and the entries have
+    /// not been moved across yet
+    rehashing: AtomicBool,
+}
+
+/// Entry counts at which Guile's hash tables grow (sizes 31, 61, 113, 223, ...; a table is
+/// resized when it holds more than nine tenths of its size).
+const RESIZE_AT: [usize; 10] = [28, 55, 102, 201, 399, 795, 1584, 3162, 6320, 12632];
 
 #[derive(Debug)]
 pub struct PairCell {
@@ -1910,16 +1922,20 @@ impl Runtime {
                 (Some(Val::List(a)), Some(Val::List(b))) => a.is_empty() && b.is_empty(),
                 _ => false,
             })),
-            "make-hash-table" => Ok(Val::Table(Arc::new(StdMutex::new(vec![])))),
+            "make-hash-table" => Ok(Val::Table(Arc::new(TableCell::default()))),
             "hash-set!" | "hash-ref" | "hash-remove!" | "hash-count" | "hashq-set!" | "hashq-ref" | "hashq-remove!" | "hashv-set!" | "hashv-ref"
             | "hashv-remove!" | "hash-clear!" | "hash-map->list" | "hash-for-each" | "hash-fold" => {
                 let (tpos, fpos) = if matches!(name, "hash-map->list" | "hash-for-each" | "hash-fold") { (if name == "hash-fold" { 2 } else { 1 }, Some(0)) } else { (0, None) };
-                let Some(Val::Table(t)) = args.get(tpos) else { return runtime(format!("{name}: not a hash table")) };
+                let Some(Val::Table(cell)) = args.get(tpos) else { return runtime(format!("{name}: not a hash table")) };
+                let t = &cell.entries;
+                // while another thread's insertion is resizing the table, the bucket vector is the
+                // new, still empty one: nothing is found
                 // shared mutable state: the order of operations is up to the schedule
                 self.point();
+                let resizing = self.concurrent && cell.rehashing.load(Ordering::SeqCst);
                 let op = name.trim_start_matches("hashq-").trim_start_matches("hashv-").trim_start_matches("hash-");
                 if let Some(fpos) = fpos {
-                    let entries: Vec<(Val, Val)> = t.lock().unwrap().clone();
+                    let entries: Vec<(Val, Val)> = if resizing { vec![] } else { t.lock().unwrap().clone() };
                     let f = args[fpos].clone();
                     return match name {
                         "hash-for-each" => {
@@ -1945,7 +1961,7 @@ impl Runtime {
                     };
                 }
                 match op {
-                    "count" => Ok(Val::Int(t.lock().unwrap().len() as i128)),
+                    "count" => Ok(Val::Int(if resizing { 0 } else { t.lock().unwrap().len() as i128 })),
                     "clear!" => {
                         t.lock().unwrap().clear();
                         Ok(Val::Unspec)
@@ -1953,7 +1969,8 @@ impl Runtime {
                     "ref" => {
                         let key = args.get(1).cloned().unwrap_or(Val::Unspec);
                         let tb = t.lock().unwrap();
-                        Ok(tb.iter().find(|(k, _)| same_key(k, &key)).map(|(_, v)| v.clone()).unwrap_or_else(|| args.get(2).cloned().unwrap_or(Val::Bool(false))))
+                        let hit = if resizing { None } else { tb.iter().find(|(k, _)| same_key(k, &key)).map(|(_, v)| v.clone()) };
+                        Ok(hit.unwrap_or_else(|| args.get(2).cloned().unwrap_or(Val::Bool(false))))
                     }
                     "remove!" => {
                         let key = args.get(1).cloned().unwrap_or(Val::Unspec);
@@ -1963,6 +1980,12 @@ impl Runtime {
                     _ => {
                         let key = args.get(1).cloned().unwrap_or(Val::Unspec);
                         let val = args.get(2).cloned().unwrap_or(Val::Unspec);
+                        if resizing {
+                            // the entry is not found in the empty vector: a fresh one is consed in
+                            // front of whatever the resize moves across afterwards
+                            t.lock().unwrap().insert(0, (key, val));
+                            return Ok(Val::Unspec);
+                        }
                         {
                             let mut tb = t.lock().unwrap();
                             if let Some(e) = tb.iter_mut().find(|(k, _)| same_key(k, &key)) {
@@ -1986,6 +2009,16 @@ impl Runtime {
                             e.1 = val;
                         } else {
                             tb.push((key, val));
+                        }
+                        let grows = RESIZE_AT.contains(&tb.len());
+                        drop(tb);
+                        if grows && self.concurrent && ctx.thread != MAIN_THREAD {
+                            // this insertion resizes the table: the new bucket vector is installed
+                            // empty, then the entries are moved across (libguile/hashtab.c)
+                            cell.rehashing.store(true, Ordering::SeqCst);
+                            self.point();
+                            self.point();
+                            cell.rehashing.store(false, Ordering::SeqCst);
                         }
                         Ok(Val::Unspec)
                     }
